@@ -47,6 +47,9 @@ Parse(prog) == [i \in 1..Len(prog) |->
   LET it == prog[i] IN
   CASE it.k = "lab" -> Mk("lab", i, 0, None, "", 0, 0, it.t, "", 0)
     [] it.k = "ins" -> Mk("ins", i, 4, LiteralBase(it), it.m, it.a, it.b, "", "", 0)
+    \* (written in the 16-bit form: the item is what the compressor would have made of it, from the start)
+    [] it.k = "br" /\ it.f = "c" -> Mk("cbr", i, 2, None, it.m, it.a, it.b, it.t, "", 0)
+    [] it.k = "jal" /\ it.f = "c" -> Mk("cj", i, 2, None, "jal", it.a, 0, it.t, "", 0)
     [] it.k = "br" -> Mk("br", i, 4, None, it.m, it.a, it.b, it.t, "", 0)
     [] it.k = "jal" -> Mk("jal", i, 4, None, "jal", it.a, 0, it.t, "", 0)
     [] it.k = "const" -> Mk("const", i, 0, None, "", 0, 0, "", "", 0)
